@@ -7,6 +7,7 @@ import (
 	"time"
 
 	"github.com/cube2222/octosql/octosql"
+	"github.com/cube2222/octosql/physical"
 
 	"github.com/cube2222/octosql/plugins/verifharness/nodeh"
 )
@@ -252,4 +253,105 @@ func buildRetractJoinQuery(rng *rand.Rand, shape string) string {
 		sel = renderSelect(g.selectList(2+rng.Intn(3), 1), "c") + ", a.id AS ka, b.id AS kb"
 	}
 	return "SELECT " + sel + " FROM m.t1 a " + kw + " m.t2 b ON " + on
+}
+
+// ---------------------------------------------------------------------------------------------
+// Zero-sum groups: GROUP BY shapes over a table built so that, deterministically, one group holds a
+// single 0, one group holds +x/-x pairs (sum exactly zero) and one group is arbitrary; all value
+// columns are non-nullable, so no aggregate over a non-empty group may yield NULL.
+
+var t4Cols = []colDef{
+	{"id", "int", octosql.Int},
+	{"k", "int", octosql.Int},
+	{"ks", "str", octosql.String},
+	{"zi", "int", octosql.Int},
+	{"zf", "float", octosql.Float},
+	{"zd", "dur", octosql.Duration},
+	{"nzi", "int", tUnion(octosql.Null, octosql.Int)},
+}
+
+func genZeroSumTable(rng *rand.Rand, retracting bool) *nodeh.Table {
+	fields := make([]physical.SchemaField, len(t4Cols))
+	for i, cd := range t4Cols {
+		fields[i] = physical.SchemaField{Name: cd.name, Type: cd.typ}
+	}
+	var rows [][]octosql.Value
+	add := func(k int64, ks string, zi int64, zf float64, zd time.Duration) {
+		nzi := octosql.NewInt(zi)
+		if rng.Intn(3) == 0 {
+			nzi = octosql.NewNull()
+		}
+		rows = append(rows, []octosql.Value{octosql.NewInt(int64(len(rows))), octosql.NewInt(k), octosql.NewString(ks),
+			octosql.NewInt(zi), octosql.NewFloat(zf), octosql.NewDuration(zd), nzi})
+	}
+	// group 0: a single zero
+	add(0, "a", 0, 0, 0)
+	// group 1: +x/-x pairs
+	for p := 0; p < 1+rng.Intn(2); p++ {
+		x := int64(1 + rng.Intn(5))
+		f := []float64{0.5, 1, 2.25, 1e300}[rng.Intn(4)]
+		d := []time.Duration{time.Second, time.Hour, 1}[rng.Intn(3)]
+		add(1, "b", x, f, d)
+		add(1, "b", -x, -f, -d)
+	}
+	// group 2 (sometimes absent, sometimes itself zero-sum): small values around zero
+	switch rng.Intn(3) {
+	case 0:
+		for n := rng.Intn(4); n > 0; n-- {
+			add(2, "a", int64(rng.Intn(5)-2), float64(rng.Intn(5)-2)/2, time.Duration(rng.Intn(5)-2)*time.Second)
+		}
+	case 1:
+		add(2, "c", -2, -1.5, -time.Minute)
+		add(2, "c", 1, 0.5, 0)
+		add(2, "c", 1, 1, time.Minute)
+	}
+	rng.Shuffle(len(rows), func(i, j int) { rows[i], rows[j] = rows[j], rows[i] })
+	var evs []nodeh.Event
+	for _, r := range rows {
+		evs = append(evs, nodeh.Rec(r, false, time.Time{}))
+	}
+	if retracting {
+		// insert and retract an extra row per group: the running sums pass through other values and
+		// come back to zero
+		for k := int64(0); k < 2; k++ {
+			extra := []octosql.Value{octosql.NewInt(100 + k), octosql.NewInt(k), octosql.NewString([]string{"a", "b"}[k]),
+				octosql.NewInt(7), octosql.NewFloat(7.5), octosql.NewDuration(7 * time.Second), octosql.NewInt(7)}
+			at := rng.Intn(len(evs) + 1)
+			evs = append(evs[:at], append([]nodeh.Event{nodeh.Rec(extra, false, time.Time{})}, evs[at:]...)...)
+			evs = append(evs, nodeh.Rec(extra, true, time.Time{}))
+		}
+	}
+	return &nodeh.Table{Fields: fields, TimeField: -1, NoRetractions: !retracting, Events: evs}
+}
+
+func buildZeroSumQuery(rng *rand.Rand, shape string) string {
+	pick := func(xs ...string) string { return xs[rng.Intn(len(xs))] }
+	aggs := []string{"sum(z.zi)", "sum(z.zf)", "sum(z.zd)", "sum(z.zi)", "sum(z.zf)", "sum_distinct(z.zi)", "sum((z.zi * 2))", "sum((z.zf + z.zf))", "sum((z.zi - z.zi))", "sum(z.nzi)",
+		"avg(z.zi)", "avg(z.zf)", "avg(z.zd)", "avg_distinct(z.zi)", "min(z.zi)", "max(z.zi)", "min(z.zf)", "max(z.zd)", "count(z.zi)", "count(*)", "count_distinct(z.zf)", "array_agg(z.zi)", "sum(float(z.zi))", "sum(int(z.zf))"}
+	n := 2 + rng.Intn(4)
+	var sel []string
+	key := pick("z.k", "z.k", "z.ks", "z.k, z.ks", "(z.k / 2)", "")
+	if key != "" {
+		for i, k := range strings.Split(key, ", ") {
+			sel = append(sel, fmt.Sprintf("%s AS g%d", k, i))
+		}
+	}
+	sel = append(sel, "sum("+pick("z.zi", "z.zf", "z.zd")+") AS s")
+	for i := 0; i < n; i++ {
+		sel = append(sel, fmt.Sprintf("%s AS a%d", aggs[rng.Intn(len(aggs))], i))
+	}
+	sql := "SELECT " + strings.Join(sel, ", ") + " FROM m.t4 z"
+	if rng.Intn(3) == 0 {
+		sql += " WHERE " + pick("z.k < 2", "z.k = 1", "z.k = 0", "z.ks != 'c'", "z.zi >= -5")
+	}
+	if key != "" {
+		sql += " GROUP BY " + key
+		if shape == "groupby-zero-trigger" {
+			sql += " TRIGGER " + pick("COUNTING 1", "COUNTING 2", "COUNTING 2, ON END OF STREAM", "ON END OF STREAM")
+		}
+	}
+	if shape == "groupby-zero-subquery" {
+		return "SELECT q.s AS c0, q.a0 AS c1, (q.s IS NULL) AS c2 FROM (" + sql + ") q"
+	}
+	return sql
 }
